@@ -60,6 +60,7 @@ impl Parse for Expr {
                             &mut path_sep,
                         ]),
                         &mut balanced_pair(punct('|'), punct('|')),
+                        &mut cast,
                         &mut token_tree,
                     ]),
                     punct(','),
@@ -121,6 +122,30 @@ pub fn punct(p: char) -> impl FnMut(Cursor<'_>) -> ParsingResult<'_> {
             (punct.as_char() == p).then(|| (punct.into_token_stream(), c))
         })
     }
+}
+
+/// Tries to parse an `as` cast along with the path of its type, so the generic arguments of the
+/// type (`x as M<K, V>`) are consumed as a whole, like Rust itself does.
+pub fn cast(c: Cursor<'_>) -> ParsingResult<'_> {
+    let (kw, mut c) = c.ident().filter(|(ident, _)| ident == "as")?;
+    let mut out = kw.into_token_stream();
+
+    while let Some((stream, cursor)) = alt([
+        &mut path_sep,
+        &mut balanced_pair(punct('<'), punct('>')),
+        &mut punct('&'),
+        &mut punct('*'),
+        &mut |c: Cursor<'_>| {
+            c.lifetime().map(|(lt, c)| (lt.into_token_stream(), c))
+        },
+        &mut |c: Cursor<'_>| c.ident().map(|(i, c)| (i.into_token_stream(), c)),
+    ])(c)
+    {
+        out.extend(stream);
+        c = cursor;
+    }
+
+    Some((out, c))
 }
 
 /// Tries to parse any [`TokenTree`].
